@@ -230,7 +230,21 @@ macro_rules! body {
                         $go(module.glwe_decrypt_tmp_bytes(&li), &mut |s: &mut Scratch<$T>| {
                             module.glwe_decrypt(&ct, &mut out, &skp, s); out.data.data.clone() }) }
                 } }
-            106 | 107 | 110 | 111 => { // glwe_keyswitch(_assign) / glwe_automorphism / glwe_automorphism_add  [be n | res(6) a(6) key(6)]
+            106 | 107 => { // glwe_keyswitch(_assign)  [be n | res(6) a(6) key(6)]
+                let (lr, la, lk) = (glwe_l(n, &p[2..8]), glwe_l(n, &p[8..14]), gglwe_l(n, &p[14..20]));
+                let mut key = GGLWE::alloc_from_infos(&lk); key.fill_uniform(u(p[14]), &mut src(40));
+                let mut kp = module.gglwe_prepared_alloc_from_infos(&lk);
+                let mut sb = big(module.gglwe_prepare_tmp_bytes(&lk)); module.gglwe_prepare(&mut kp, &key, sb.borrow());
+                let mut a = GLWE::alloc_from_infos(&la); a.fill_uniform(u(p[8]), &mut src(41));
+                let mut r0 = GLWE::alloc_from_infos(&lr); r0.fill_uniform(u(p[2]), &mut src(42));
+                if $op == 106 {
+                    $go(module.glwe_keyswitch_tmp_bytes(&lr, &la, &lk), &mut |s: &mut Scratch<$T>| {
+                        let mut r = r0.clone(); module.glwe_keyswitch(&mut r, &a, &kp, s); r.data().data.clone() })
+                } else {
+                    $go(module.glwe_keyswitch_tmp_bytes(&lr, &lr, &lk), &mut |s: &mut Scratch<$T>| {
+                        let mut r = r0.clone(); module.glwe_keyswitch_assign(&mut r, &kp, s); r.data().data.clone() })
+                } }
+            110 | 111 => { // glwe_automorphism / glwe_automorphism_add  [be n | res(6) a(6) key(6)]
                 let (lr, la, lk) = (glwe_l(n, &p[2..8]), glwe_l(n, &p[8..14]), gglwe_l(n, &p[14..20]));
                 let mut key = GGLWE::alloc_from_infos(&lk); key.fill_uniform(u(p[14]), &mut src(40));
                 let mut kp = module.glwe_automorphism_key_prepared_alloc_from_infos(&lk);
@@ -238,15 +252,12 @@ macro_rules! body {
                 kp.set_p(module.galois_element(1));
                 let mut a = GLWE::alloc_from_infos(&la); a.fill_uniform(u(p[8]), &mut src(41));
                 let mut r0 = GLWE::alloc_from_infos(&lr); r0.fill_uniform(u(p[2]), &mut src(42));
-                match $op {
-                    106 => $go(module.glwe_keyswitch_tmp_bytes(&lr, &la, &lk), &mut |s: &mut Scratch<$T>| {
-                        let mut r = r0.clone(); module.glwe_keyswitch(&mut r, &a, &kp, s); r.data().data.clone() }),
-                    107 => $go(module.glwe_keyswitch_tmp_bytes(&lr, &lr, &lk), &mut |s: &mut Scratch<$T>| {
-                        let mut r = r0.clone(); module.glwe_keyswitch_assign(&mut r, &kp, s); r.data().data.clone() }),
-                    110 => $go(module.glwe_automorphism_tmp_bytes(&lr, &la, &lk), &mut |s: &mut Scratch<$T>| {
-                        let mut r = r0.clone(); module.glwe_automorphism(&mut r, &a, &kp, s); r.data().data.clone() }),
-                    _ => $go(module.glwe_automorphism_tmp_bytes(&lr, &la, &lk), &mut |s: &mut Scratch<$T>| {
-                        let mut r = r0.clone(); module.glwe_automorphism_add(&mut r, &a, &kp, s); r.data().data.clone() }),
+                if $op == 110 {
+                    $go(module.glwe_automorphism_tmp_bytes(&lr, &la, &lk), &mut |s: &mut Scratch<$T>| {
+                        let mut r = r0.clone(); module.glwe_automorphism(&mut r, &a, &kp, s); r.data().data.clone() })
+                } else {
+                    $go(module.glwe_automorphism_tmp_bytes(&lr, &la, &lk), &mut |s: &mut Scratch<$T>| {
+                        let mut r = r0.clone(); module.glwe_automorphism_add(&mut r, &a, &kp, s); r.data().data.clone() })
                 } }
             108 | 109 => { // glwe_external_product(_assign) [be n | res(6) a(6) ggsw(6)]
                 let (lr, la, lg) = (glwe_l(n, &p[2..8]), glwe_l(n, &p[8..14]), ggsw_l(n, &p[14..20]));
@@ -304,6 +315,13 @@ macro_rules! body {
 
 fn formula_only<BE: Backend>(need: usize, _f: &mut dyn FnMut(&mut Scratch<BE>) -> Vec<u8>) -> Vec<i128> { vec![need as i128] }
 
+fn exact_once<BE>(need: usize, f: &mut dyn FnMut(&mut Scratch<BE>) -> Vec<u8>) -> Vec<i128>
+where BE: Backend + poulpy_hal::oep::HalImpl<BE>,
+{
+    let r1 = exact::<BE, _>(need, 0x1111_2222_3333_4444, |s| f(s));
+    vec![need as i128, r1.kind, r1.canary_ok as i128]
+}
+
 fn exact_twice<BE>(need: usize, f: &mut dyn FnMut(&mut Scratch<BE>) -> Vec<u8>) -> Vec<i128>
 where BE: Backend + poulpy_hal::oep::HalImpl<BE>,
 {
@@ -316,11 +334,10 @@ where BE: Backend + poulpy_hal::oep::HalImpl<BE>,
 
 fn run(r: &Rec) -> Vec<Vec<i128>> {
     let be = r.ps[0] as i64;
-    let formula = r.code < 12500;
-    let op = if formula { r.code - 12000 } else { r.code - 12500 };
+    let (mode, op) = if r.code < 12500 { (0, r.code - 12000) } else if r.code < 12700 { (1, r.code - 12500) } else { (2, r.code - 12700) };
     let p: &[i128] = &r.ps;
     let v: Vec<i128> = with_be!(be, T, {
-        if formula { body!(T, op, p, formula_only::<T>) } else { body!(T, op, p, exact_twice::<T>) }
+        match mode { 0 => body!(T, op, p, formula_only::<T>), 1 => body!(T, op, p, exact_once::<T>), _ => body!(T, op, p, exact_twice::<T>) }
     });
     vec![v]
 }
@@ -332,79 +349,113 @@ pub fn exec(r: &Rec) -> Out {
 
 fn inf(b2k: i128, k: i128, rank: i128, rank_in: i128, dnum: i128, dsize: i128) -> Vec<i128> { vec![b2k, k, rank, rank_in, dnum, dsize] }
 
-/// shapes for one op; both the formula record and (if `run_it`) the exact-window record are emitted
-fn push(out: &mut Vec<Rec>, op: i64, ps: Vec<i128>, run_it: bool) {
-    out.push(Rec::new(12000 + op, ps.clone(), vec![]));
-    if run_it { out.push(Rec::new(12500 + op, ps, vec![])); }
+struct Gen { out: Vec<Rec>, indep: bool, thorough: bool }
+impl Gen {
+    /// one (op, shape): main phase = formula record + (if `run_it` and the take tree is `modelled`) exact-window record;
+    /// independence phase (tier "indep-*") = two-fill oracle-only record
+    fn push(&mut self, op: i64, ps: Vec<i128>, run_it: bool, modelled: bool) {
+        let run_it = run_it || self.thorough;
+        if self.indep {
+            if run_it { self.out.push(Rec::new(12700 + op, ps, vec![])); }
+        } else {
+            if modelled { self.out.push(Rec::new(12000 + op, ps.clone(), vec![])); }
+            if run_it && modelled { self.out.push(Rec::new(12500 + op, ps, vec![])); }
+        }
+    }
+}
+
+/// smallest ring degree at which the operation runs at all on this backend family (below it the transforms /
+/// block kernels assert or index out of bounds before any scratch question arises)
+fn min_n(op: i64, fft: bool) -> i128 {
+    match op {
+        11..=14 | 21 => 2,
+        30 | 31 | 32 => if fft { 8 } else { 1 },
+        40 | 50..=53 | 55 => if fft { 2 } else { 1 },
+        103 | 105 => if fft { 2 } else { 1 },
+        104 => 8, // glwe_public_key_generate (set-up of the record) itself allocates glwe_encrypt_sk_tmp_bytes and panics below 8
+        106..=109 => if fft { 8 } else { 1 },
+        110..=112 => if fft { 8 } else { 2 },
+        115 => 2,
+        _ => 1,
+    }
 }
 
 pub fn generate(tier: &str, seed: u64) -> Vec<Rec> {
     let mut rng = Rng::new(seed);
+    let (indep, tier) = match tier.strip_prefix("indep-") { Some(t) => (true, t), None => (false, tier) };
     let thorough = tier == "thorough";
-    let mut out = Vec::new();
+    let mut g = Gen { out: Vec::new(), indep, thorough };
     let bes: &[i128] = &[1, 2, 3, 4];
     let ns: &[i128] = if thorough { &[1, 2, 4, 8, 16, 32, 64, 256] } else { &[1, 2, 4, 8, 16, 64] };
     for &be in bes {
+        let fft = be <= 2;
+        let refbe = be == 1 || be == 3;
         for &n in ns {
-            let refbe = be == 1 || be == 3;
-            let runit = |sel: bool| -> bool { thorough || sel };
+            let ok = |op: i64| n >= min_n(op, fft);
             // AVX backends and larger n: fewer exact runs in the quick tier
             let dense = refbe || n <= 8;
             // ---- HAL
             for &(rs, asz) in &[(1i128, 1i128), (3, 2), (2, 5)] {
-                push(&mut out, 1, vec![be, n, rs, asz, 17, 17], runit(dense));
-                push(&mut out, 1, vec![be, n, rs, asz, 12, 19], runit(dense && rs == 3));
-                push(&mut out, 20, vec![be, n, rs, asz, 17, 17], runit(dense));
-                push(&mut out, 20, vec![be, n, rs, asz, 19, 12], runit(dense && rs == 3));
+                g.push(1, vec![be, n, rs, asz, 17, 17], dense, true);
+                g.push(1, vec![be, n, rs, asz, 12, 19], dense && rs == 3, true);
+                g.push(20, vec![be, n, rs, asz, 17, 17], dense, true);
+                g.push(20, vec![be, n, rs, asz, 19, 12], dense && rs == 3, true);
             }
             for &size in &[1i128, 3] {
-                push(&mut out, 2, vec![be, n, size, 17], runit(dense));
-                for &k in &[1i128, 5, 20] {
+                g.push(2, vec![be, n, size, 17], dense, true);
+                for &k in &[0i128, 1, 5, 20] {
                     for &op in &[3i64, 4, 5, 6, 7, 8, 9, 10] {
-                        if op == 4 && k >= 17 { continue; } // vec_znx_rsh_assign beyond one limb is C08's finding (DESIGN 5.7a), not a scratch question
-                        push(&mut out, op, vec![be, n, size, 17, k], runit(dense && (k == 5 || size == 3)));
+                        if op == 4 && (k >= 17 || k == 0) { continue; } // vec_znx_rsh_assign with k = 0 or beyond one limb is C08's finding (DESIGN 5.7a)
+                        g.push(op, vec![be, n, size, 17, k], dense && (k == 5 || size == 3), true);
                     }
                 }
-                if n >= 2 {
-                    push(&mut out, 11, vec![be, n, size, 3], runit(dense));
-                    push(&mut out, 12, vec![be, n, size, 5], runit(dense));
-                    push(&mut out, 13, vec![be, n, size, -1], runit(dense));
-                    push(&mut out, 14, vec![be, n, size], runit(dense));
-                    push(&mut out, 21, vec![be, n, size, 5], runit(dense));
+                if ok(11) {
+                    g.push(11, vec![be, n, size, 3], dense, true);
+                    g.push(12, vec![be, n, size, 5], dense, true);
+                    g.push(13, vec![be, n, size, -1], dense, true);
+                    g.push(14, vec![be, n, size], dense, true);
+                    g.push(21, vec![be, n, size, 5], dense, true);
                 }
-                push(&mut out, 40, vec![be, n, size], runit(dense));
+                if ok(40) { g.push(40, vec![be, n, size], dense, true); }
             }
-            for &(rows, ci, co, size, asz, rs) in &[(1i128, 1i128, 1i128, 1i128, 1i128, 1i128), (3, 1, 2, 3, 2, 3), (2, 2, 3, 2, 5, 2), (4, 3, 2, 3, 3, 4)] {
-                push(&mut out, 30, vec![be, n, rows, ci, co, size], runit(dense));
-                push(&mut out, 31, vec![be, n, rs, asz, rows, ci, co, size, 0], runit(dense));
-                push(&mut out, 32, vec![be, n, rs, asz, rows, ci, co, size, 0], runit(dense));
+            if ok(30) {
+                for &(rows, ci, co, size, asz, rs) in &[(1i128, 1i128, 1i128, 1i128, 1i128, 1i128), (3, 1, 2, 3, 2, 3), (2, 2, 3, 2, 5, 2), (4, 3, 2, 3, 3, 4)] {
+                    g.push(30, vec![be, n, rows, ci, co, size], dense, true);
+                    g.push(31, vec![be, n, rs, asz, rows, ci, co, size, 0], dense, true);
+                    g.push(31, vec![be, n, rs, asz, rows, ci, co, size, 1], dense && rows == 3, true);
+                    g.push(32, vec![be, n, rs, asz, rows, ci, co, size, 0], dense, true);
+                }
             }
             for &(rs, asz, bsz, off) in &[(1i128, 1i128, 1i128, 0i128), (3, 2, 2, 0), (2, 3, 1, 1), (5, 2, 3, 1), (2, 2, 2, 3)] {
-                push(&mut out, 50, vec![be, n, rs, asz], runit(dense));
-                push(&mut out, 51, vec![be, n, rs, asz], runit(dense));
-                push(&mut out, 52, vec![be, n, rs, asz], runit(dense));
-                push(&mut out, 53, vec![be, n, off, rs, asz, bsz], runit(dense));
-                push(&mut out, 54, vec![be, n, off, rs, asz, bsz], runit(dense));
-                push(&mut out, 55, vec![be, n, off, rs, asz, bsz], runit(dense));
+                if ok(50) {
+                    g.push(50, vec![be, n, rs, asz], dense, true);
+                    g.push(51, vec![be, n, rs, asz], dense, true);
+                    g.push(52, vec![be, n, rs, asz], dense, true);
+                    g.push(53, vec![be, n, off, rs, asz, bsz], dense, true);
+                    g.push(55, vec![be, n, off, rs, asz, bsz], dense, true);
+                }
+                g.push(54, vec![be, n, off, rs, asz, bsz], dense, true);
             }
             // ---- core
             let dense_core = refbe || n <= 4;
             for &(nl, b2k, k) in &[(1i128, 17i128, 17i128), (7, 17, 30), (n, 12, 36), (n + 1, 17, 8 * 17), (22, 10, 55)] {
-                push(&mut out, 101, vec![be, n, nl, b2k, k], runit(dense_core));
-                push(&mut out, 102, vec![be, n, nl, b2k, k], runit(dense_core));
+                g.push(101, vec![be, n, nl, b2k, k], dense_core, true);
+                g.push(102, vec![be, n, nl, b2k, k], dense_core, true);
             }
             for &(b2k, k, rank) in &[(17i128, 17i128, 1i128), (17, 40, 1), (12, 36, 2), (10, 55, 3)] {
-                let g = inf(b2k, k, rank, rank, 0, 1);
+                let gi = inf(b2k, k, rank, rank, 0, 1);
                 for &op in &[103i64, 104, 105] {
-                    let mut ps = vec![be, n]; ps.extend(&g);
-                    push(&mut out, op, ps, runit(dense_core));
+                    if !ok(op) { continue; }
+                    let mut ps = vec![be, n]; ps.extend(&gi);
+                    g.push(op, ps, dense_core, true);
                 }
                 for &op in &[113i64, 114, 115, 117] {
-                    let mut ps = vec![be, n]; ps.extend(&g); ps.extend(&inf(b2k + 2, k + 5, rank, rank, 0, 1)); ps.push(1);
-                    push(&mut out, op, ps, runit(dense_core && (op != 115 || n >= 2)));
+                    if !ok(op) { continue; }
+                    let mut ps = vec![be, n]; ps.extend(&gi); ps.extend(&inf(b2k + 2, k + 5, rank, rank, 0, 1)); ps.push(1);
+                    g.push(op, ps, dense_core, true);
                 }
             }
-            // key-switch family: (res b2k,k) (a b2k,k) (key b2k, k, rank_in, rank_out, dnum, dsize)
+            // key-switch family: (res b2k,k) (a b2k,k) (key b2k, k, rank_in, rank_out, dnum, dsize); key: size > dsize, dnum*dsize <= size
             let ks: &[(i128, i128, i128, i128, i128, i128, i128, i128, i128, i128)] = &[
                 (17, 34, 17, 34, 17, 51, 1, 1, 2, 1),      // same radix, dsize 1
                 (17, 51, 17, 51, 17, 68, 2, 1, 3, 1),      // rank_in != rank_out
@@ -412,55 +463,60 @@ pub fn generate(tier: &str, seed: u64) -> Vec<Rec> {
                 (15, 60, 16, 64, 17, 102, 2, 2, 2, 3),     // cross-radix input (extra temporaries), dsize 3
                 (17, 17, 13, 39, 17, 34, 1, 1, 1, 1),      // cross-radix, one-limb result
                 (12, 60, 12, 58, 12, 72, 1, 1, 3, 2),      // a.size not a multiple of dsize
+                (17, 51, 17, 51, 17, 51, 1, 1, 1, 2),      // dsize 2, same radix everywhere
             ];
             for &(rb, rk, ab, ak, kb, kk, rin, rout, dnum, dsize) in ks {
                 let mut ps = vec![be, n];
                 ps.extend(&inf(rb, rk, rout, rout, 0, 1)); ps.extend(&inf(ab, ak, rin, rin, 0, 1)); ps.extend(&inf(kb, kk, rout, rin, dnum, dsize));
-                push(&mut out, 106, ps.clone(), runit(dense_core));
+                if ok(106) { g.push(106, ps.clone(), dense_core, true); }
                 if rin == rout {
-                    push(&mut out, 107, ps.clone(), runit(dense_core));
-                    if n >= 2 {
-                        push(&mut out, 110, ps.clone(), runit(dense_core));
-                        push(&mut out, 111, ps.clone(), runit(dense_core));
+                    if ok(107) { g.push(107, ps.clone(), dense_core, true); }
+                    if ok(110) {
+                        g.push(110, ps.clone(), dense_core, true);
+                        g.push(111, ps.clone(), dense_core, true);
                         let mut pt = ps.clone(); pt.push(0);
-                        push(&mut out, 112, pt, runit(dense_core && n <= 16));
+                        let same = rb == kb && ab == kb;
+                        g.push(112, pt, dense_core && n <= 16, same);
                     }
-                    // external product: ggsw has rank_in = rank
+                    // external product: the GGSW has rank_in = rank
                     let mut pe = vec![be, n];
                     pe.extend(&inf(rb, rk, rout, rout, 0, 1)); pe.extend(&inf(ab, ak, rout, rout, 0, 1)); pe.extend(&inf(kb, kk, rout, rout, dnum, dsize));
-                    push(&mut out, 108, pe.clone(), runit(dense_core));
-                    push(&mut out, 109, pe, runit(dense_core));
+                    if ok(108) {
+                        g.push(108, pe.clone(), dense_core, true);
+                        g.push(109, pe, dense_core, true);
+                    }
                 }
             }
             for &(rb, rk, ab, ak, bl, off) in &[(17i128, 34i128, 17i128, 34i128, 1i128, 0i128), (17, 51, 17, 34, 2, 17), (17, 51, 15, 45, 3, 40), (12, 36, 12, 36, 2, 0)] {
                 let mut ps = vec![be, n];
                 ps.extend(&inf(rb, rk, 1, 1, 0, 1)); ps.extend(&inf(ab, ak, 1, 1, 0, 1)); ps.push(bl); ps.push(off);
-                push(&mut out, 116, ps, runit(dense_core));
+                g.push(116, ps, dense_core, true);
             }
         }
     }
-    // a few random shapes on the reference backends (formula + run)
+    // random shapes on the reference backends
     let extra = if thorough { 400 } else { 60 };
     for _ in 0..extra {
         let be = rng.pick(&[1i128, 3]);
-        let n = rng.pick(&[1i128, 2, 4, 8, 16, 32]);
+        let n = rng.pick(&[8i128, 16, 32]);
         let b2k = rng.range(8, 20) as i128;
         let rank = rng.range(1, 3) as i128;
-        let size = rng.range(1, 5) as i128;
         let dsize = rng.range(1, 3) as i128;
+        let dnum = rng.range(1, 3) as i128;
+        let size = dnum * dsize + rng.range(1, 2) as i128;
         let ab = if rng.below(2) == 0 { b2k } else { rng.range(8, 20) as i128 };
         let asz = rng.range(1, 5) as i128;
-        let dnum = rng.range(1, 4) as i128;
         let mut ps = vec![be, n];
-        ps.extend(&inf(rng.range(8, 20) as i128, rng.range(8, 80) as i128, rank, rank, 0, 1));
+        let rb = if rng.below(2) == 0 { b2k } else { rng.range(8, 20) as i128 };
+        ps.extend(&inf(rb, rb * rng.range(1, 5) as i128 - rng.range(0, 3) as i128, rank, rank, 0, 1));
         ps.extend(&inf(ab, ab * asz - rng.range(0, 3) as i128, rank, rank, 0, 1));
         ps.extend(&inf(b2k, b2k * size, rank, rank, dnum, dsize));
         let op = rng.pick(&[106i64, 108, 111]);
-        if op != 111 || n >= 2 { push(&mut out, op, ps, true); }
+        g.push(op, ps, true, true);
         let mut pg = vec![be, n]; pg.extend(&inf(b2k, b2k * size - rng.range(0, 5) as i128, rank, rank, 0, 1));
-        push(&mut out, rng.pick(&[103i64, 104, 105]), pg, true);
+        g.push(rng.pick(&[103i64, 104, 105]), pg, true, true);
     }
-    out
+    g.out
 }
 
 fn main() { poulpy_verif_harness::run_main(generate, exec) }
